@@ -118,28 +118,31 @@ Definition xended (x : inp) : bool := ended (ipc x).
 Definition has_election (g : strat) : bool :=
   match g with SAllNone | STupNone | SJoinNone => false | _ => true end.
 
-Record loc1 (s : st) (j : nat) (x : inp) : Prop := {
+(* per-input facts, as a function of the global fields they depend on *)
+Record loc1 (g : strat) (nr nn dp del : nat) (d : option nat) (j : nat) (x : inp) : Prop := {
   l_none : ires x = None -> iw x <> WR;
-  l_begun : ipc x <> PIdle -> iw x = WR /\ j < nreg s /\ ires x <> None;
-  l_wc : iw x = WC -> j < nreg s;
-  l_reg : j < nreg s -> iw x <> WE;
-  l_lost : j < nreg s -> iw x = WR -> ipc x <> PIdle;
+  l_begun : ipc x <> PIdle -> iw x = WR /\ j < nr /\ ires x <> None;
+  l_wc : iw x = WC -> j < nr;
+  l_reg : j < nr -> iw x <> WE;
+  l_lost : j < nr -> iw x = WR -> ipc x <> PIdle;
   l_cons : icons x = if begun (ipc x) then 1 else 0;
-  l_pcons : ipc x = PCons -> owned (sg s) = false;
+  l_pcons : ipc x = PCons -> owned g = false;
   l_pel : ipc x = PStrat \/ ipc x = PRmw \/ ipc x = PSet ->
-          has_election (sg s) = true /\ (is_ff (sg s) = true -> ofailing (ires x) = true);
-  l_pdtor : in_dtor (ipc x) = true -> dt s = Some j;
-  l_pdk : forall k, ipc x = PDtor k -> owned (sg s) = true /\ k < n s /\ dprog s = k;
-  l_ppub : ipc x = PPub -> owned (sg s) = true -> dprog s = n s;
-  l_dt : dt s = Some j ->
-         ended (ipc x) = true /\ deleted s = (if pc_fin (ipc x) then 1 else 0) /\
-         (pc_fin (ipc x) = true -> owned (sg s) = true -> dprog s = n s)
+          has_election g = true /\ (is_ff g = true -> ofailing (ires x) = true);
+  l_pdtor : in_dtor (ipc x) = true -> d = Some j;
+  l_pdk : forall k, ipc x = PDtor k -> owned g = true /\ k < nn /\ dp = k;
+  l_ppub : ipc x = PPub -> owned g = true -> dp = nn;
+  l_dt : d = Some j ->
+         ended (ipc x) = true /\ del = (if pc_fin (ipc x) then 1 else 0) /\
+         (pc_fin (ipc x) = true -> owned g = true -> dp = nn)
 }.
+
+Definition L1 (s : st) := loc1 (sg s) (nreg s) (n s) (dprog s) (deleted s) (dt s).
 
 Record I1 (s : st) : Prop := {
   i_len : length (ins s) = n s;
   i_nreg : nreg s <= n s;
-  i_loc : forall j x, nth_error (ins s) j = Some x -> loc1 s j x;
+  i_loc : forall j x, nth_error (ins s) j = Some x -> L1 s j x;
   i_count : count s + cnt xended (ins s) = n s;
   i_dt_none : dt s = None -> deleted s = 0 /\ dprog s = 0 /\ (n s > 0 -> count s > 0);
   i_dt_some : forall d, dt s = Some d -> count s = 0 /\ d < n s
@@ -162,9 +165,29 @@ Proof.
   - discriminate.
 Qed.
 
-(* the state after replacing input i *)
-Lemma ins_set_in i x s : ins (set_in i x s) = upd i (fun _ => x) (ins s).
-Proof. reflexivity. Qed.
+Lemma loc1_idle_w g nr nn dp del d j x : loc1 g nr nn dp del d j x -> iw x <> WR -> ipc x = PIdle.
+Proof. intros L H. destruct (ipc x) eqn:E; auto; exfalso; apply H; apply (l_begun _ _ _ _ _ _ _ _ L); congruence. Qed.
+
+Lemma loc1_idle_reg g nr nn dp del d j x : loc1 g nr nn dp del d j x -> ~ j < nr -> ipc x = PIdle.
+Proof. intros L H. destruct (ipc x) eqn:E; auto; exfalso; apply H; apply (l_begun _ _ _ _ _ _ _ _ L); congruence. Qed.
+
+(* the pc at which a consume step starts / continues after the input was retired *)
+Lemma strat_entry_cases g r :
+  strat_entry g r = PDec \/
+  (strat_entry g r = PStrat /\ has_election g = true /\ (is_ff g = true -> ofailing r = true)).
+Proof. destruct g; simpl; auto; destruct (ofailing r); auto. Qed.
+
+Lemma begin_pc_cases g r :
+  let p := if owned g then strat_entry g r else PCons in
+  (p = PCons /\ owned g = false) \/ (p = PDec /\ owned g = true) \/
+  (p = PStrat /\ owned g = true /\ has_election g = true /\ (is_ff g = true -> ofailing r = true)).
+Proof.
+  simpl. destruct (owned g) eqn:E; auto. right.
+  destruct (strat_entry_cases g r) as [H|(H & H1 & H2)]; rewrite H; auto.
+Qed.
+
+Lemma word_eqb_eq a b : word_eqb a b = true -> a = b.
+Proof. destruct a, b; simpl; congruence. Qed.
 
 Ltac inv H := inversion H; subst; clear H.
 
@@ -174,3 +197,55 @@ Ltac case_step H :=
          | context [match ?x with _ => _ end] => destruct x eqn:?; simpl in H; try discriminate H
          | context [if ?x then _ else _] => destruct x eqn:?; simpl in H; try discriminate H
          end.
+
+(* ---- tactics ------------------------------------------------------------------------------------ *)
+
+Ltac saturate :=
+  repeat match goal with
+         | H : forall k0, PDtor ?k = PDtor k0 -> _ |- _ => specialize (H k eq_refl)
+         | H : ?A -> _ |- _ =>
+             match type of A with
+             | Prop => let h := fresh in
+                       assert (h : A) by (solve [reflexivity | discriminate | congruence | lia | assumption]);
+                       specialize (H h); clear h
+             end
+         | H : _ /\ _ |- _ => destruct H
+         end.
+
+Ltac fin :=
+  simpl in *; try discriminate; try congruence; try lia; try tauto; eauto.
+
+Ltac split_hyps :=
+  repeat match goal with
+         | H : _ \/ _ |- _ => destruct H
+         | H : _ /\ _ |- _ => destruct H
+         end.
+
+Ltac rew_fields :=
+  repeat match goal with
+         | H : ires ?x = _ |- _ => rewrite H in *
+         | H : iw ?x = _ |- _ => rewrite H in *
+         | H : ipc ?x = _ |- _ => rewrite H in *
+         end.
+
+Ltac loc_tac L :=
+  destruct L; constructor; simpl in *; intros; rew_fields; simpl in *; split_hyps; saturate; rew_fields; simpl in *;
+  try discriminate; try congruence; try lia; repeat split; fin.
+
+Ltac case_ifs :=
+  repeat match goal with
+         | H : context [if ?b then _ else _] |- _ => destruct b eqn:?; simpl in *
+         | |- context [if ?b then _ else _] => destruct b eqn:?; simpl in *
+         end.
+
+(* frame lemmas: what a change of the global fields does to the other inputs *)
+Lemma loc1_nreg g nr nn dp del d j x : loc1 g nr nn dp del d j x -> j <> nr -> loc1 g (S nr) nn dp del d j x.
+Proof. intros L H. loc_tac L. Qed.
+
+Lemma loc1_dt_set g nr nn dp del i j x :
+  loc1 g nr nn dp del None j x -> j <> i -> loc1 g nr nn dp del (Some i) j x.
+Proof. intros L H. destruct (ipc x) eqn:E; loc_tac L. Qed.
+
+Lemma loc1_dtor_progress g nr nn dp del dp' del' d j x :
+  loc1 g nr nn dp del (Some d) j x -> j <> d -> loc1 g nr nn dp' del' (Some d) j x.
+Proof. intros L H. destruct (ipc x) eqn:E; loc_tac L. Qed.
